@@ -568,6 +568,7 @@ def run_scenarios(scens, wd, client, jobs=24, timeout=3000):
     return {r["name"]: r for r in res["results"]}, sdir
 
 
+VALIDATE_TIMEOUT = 900
 EOF_LINE = '{"ev":"eof","ts":0,"t":"-","l":"-","id":0,"m":"-","res":"-"}\n'
 
 
@@ -592,7 +593,7 @@ def validate_many(names, sdir, wd, shard=6, par=10):
                 f.write(text)
             f.write(EOF_LINE)
         # as common.validate_trace, with a JVM that does not grab every core (many validators run side by side)
-        r = tlc("Trace_Client", "Trace_Client.cfg", os.path.join(vdir, "w%d" % idx), workers=1, timeout=1500,
+        r = tlc("Trace_Client", "Trace_Client.cfg", os.path.join(vdir, "w%d" % idx), workers=1, timeout=VALIDATE_TIMEOUT,
                 env_extra={"TRACE": cat, "JAVA_TOOL_OPTIONS": "-Xss1g -Xmx3g -XX:ParallelGCThreads=2 -XX:CICompilerCount=2 "
                                                               "-Dtlc2.tool.queue.IStateQueue=StateDeque"})
         tags, consumed = None, 0
@@ -639,8 +640,8 @@ def owner_tags(pid, tags):
                         out.append(("abort:" + fid, "panic at %s" % what, ln))
             if not hit and not SECONDARY.search(what) and pid == "C14":
                 out.append(("abort:" + what, "panic at %s" % what, ln))
-        elif prop == "INCONCLUSIVE":
-            out.append(("INCONCLUSIVE", what, ln))
+        elif prop in ("INCONCLUSIVE", "VALIDATOR"):
+            out.append((prop, what, ln))
         elif prop == pid:
             out.append((what, what, ln))
     return out
@@ -707,8 +708,7 @@ def classify(pid, tags):
             first_line[f] = min(first_line.get(f, ln), ln)
     out = []
     for (ln, prop, what, _n) in tags:
-        if prop == "INCONCLUSIVE":
-            out.append(("INCONCLUSIVE", what, what, ln))
+        if prop in ("INCONCLUSIVE", "VALIDATOR"):
             continue
         key = what
         if prop == "ABORT":
@@ -765,8 +765,8 @@ def signature(trace_path):
 
 SAFETY_INVS = {
     "C05": ["InvNeverLost", "InvExactlyOne", "InvDataForResend", "InvStore"],
-    "C13": ["InvOneLoop", "InvNoFlood", "InvEndsUnreachable", "InvMapSound"],
-    "C14": ["InvBadSig", "InvMisbehaving", "InvSurvives", "InvStore"],
+    "C13": ["InvOneLoop", "InvNoFlood", "InvEndsUnreachable", "InvMapSound", "InvManualRetryGate"],
+    "C14": ["InvBadSig", "InvMisbehaving", "InvSurvives", "InvRegRecorded", "InvStore"],
 }
 ALL_KINDS = '{"sub_error", "reject", "garbage", "badsig", "malsig"}'
 
@@ -833,13 +833,14 @@ def design_level(pid, tier, wd, stats):
     mdir = os.path.join(wd, "tlc")
     invs = SAFETY_INVS[pid]
     runs = []
+    mreg = 1 if pid == "C14" else 0      # registertower calls by the user (C14 RegRecorded)
     if tier == "quick":
-        runs.append(("safety_1x1", mc_consts(1, 1), invs, None, "Spec"))
+        runs.append(("safety_1x1", mc_consts(1, 1, MaxReg=mreg), invs, None, "Spec"))
         runs.append(("safety_2x1_small", mc_consts(2, 1, MaxNotify=1, MaxBad=1, MaxRetry=0, MaxConc=1), invs, None, "Spec"))
         if pid == "C13":
             runs.append(("live_1x2", mc_consts(1, 2, MaxNotify=1, RegKinds='{"garbage"}'), None, ["Delivered"], "LiveSpec"))
     else:
-        runs.append(("safety_1x1", mc_consts(1, 1), invs, None, "Spec"))
+        runs.append(("safety_1x1", mc_consts(1, 1, MaxReg=mreg), invs, None, "Spec"))
         runs.append(("safety_2x2", mc_consts(2, 2, MaxNotify=1, MaxBad=1, MaxRetry=0), invs, None, "Spec"))
         runs.append(("safety_2x1", mc_consts(2, 1, MaxConc=1), invs, None, "Spec"))
         runs.append(("safety_1x2", mc_consts(1, 2), invs, None, "Spec"))
@@ -968,6 +969,11 @@ def run_check(pid, tier, replay, scenarios_fn, rule):
         if still:
             raise ToolError("timing assumptions not met (machine overloaded?) in scenarios %s: %s" %
                             (still, [res[n]["inconclusive"] for n in still][:3]))
+    # scenarios the validator could not judge (too many compatible states): counted, not judged; too many = tool error
+    unjudged = [n for n in names if any(t[1] == "VALIDATOR" for t in tags_of[n])]
+    if len(unjudged) > max(2, len(names) // 20):
+        raise ToolError("Trace_Client gave up on %d of %d scenarios (too many compatible states): %s" %
+                        (len(unjudged), len(names), unjudged[:5]))
     hits = {}
     other = {}
     tagged = 0
@@ -977,7 +983,7 @@ def run_check(pid, tier, replay, scenarios_fn, rule):
         if mine:
             tagged += 1
         for (_ln, prop, what, _x) in tags_of[n]:
-            if prop not in (pid, "ABORT"):
+            if prop not in (pid, "ABORT", "VALIDATOR", "INCONCLUSIVE"):
                 other["%s.%s" % (prop, what)] = other.get("%s.%s" % (prop, what), 0) + 1
         for fid, key, text, ln in mine:
             trace = os.path.join(sdir, n + ".ndjson")
@@ -1037,6 +1043,7 @@ def run_check(pid, tier, replay, scenarios_fn, rule):
         "nontrivial_scenarios": nontrivial,
         "impl_trace_lines_validated": lines,
         "scenarios_with_tags_of_this_property": tagged,
+        "scenarios_not_judged_too_ambiguous": unjudged,
         "findings_hit": hits,
         "known_findings_hit": verdict.known_hits,
         "tags_of_other_properties": other,
